@@ -554,6 +554,8 @@ public:
 
 	void Insert(size_t index, size_t count, const Item& item)
 	{
+		if (count > internal::UIntConst::maxSize - mCount)
+			throw std::length_error("Invalid item count");
 		MemManager& memManager = GetMemManager();
 		ItemHandler itemHandler(memManager,
 			typename ItemTraits::template Creator<const Item&>(memManager, item));
